@@ -13,7 +13,11 @@ LEVEL = "model_checking"
 RULE = ("for every schema configuration, every tag node x every suffix path of its long name x case variants "
         "{as written, lower, UPPER, sWAP} x suffix {none, extension, two values}; each (config, spelling) is a distinct "
         "case; non-trivial = spelling differs from the canonical short form; state = (config, node); transition = one "
-        "identification / conversion executed on the implementation")
+        "identification / conversion executed on the implementation.  E2 histories: one live tag (7 subjects x 3 start "
+        "spellings x 2 start schemas) x every sequence up to depth 3 (thorough 5) of {read long, read short, validate under "
+        "8.2.0, validate under 8.3.0, set extension (2 values), replace placeholder, copy}; after every history the forms "
+        "must equal those the XML model gives for (current schema, node, extension) and long(short) must hold on fresh "
+        "objects; copied-from objects must be unaffected")
 ASSUMPTIONS = [
     "case variants are str.lower/upper/swapcase of names whose case mapping round-trips (ASCII + e-acute)",
     "short names are unique inside one schema (checked from the XML; duplicates would be excluded and reported)",
@@ -226,12 +230,145 @@ def bulk_check(ctx, cfgs):
             rec.violation("C03:bulk-cell-differs", config=label, got=df["HED"][0][:300], want=want_cell[:300])
 
 
+# ---- E2: operation histories on one live tag object ------------------------------------------------------------
+HIST_SCHEMAS = ("8.2.0", "8.3.0")
+HIST_OPS = ["long", "short", "val:0", "val:1", "ext:Xy1", "ext:#", "rp:7", "copy"]
+
+
+def history_subjects():
+    """(short name, start suffix) of tags present in both schemas: one that moved between the versions, a value-taking
+    one, an extension-allowed one, a plain one.  Ground truth: the two XML models."""
+    ma, mb = (schema_model.load(os.path.join(core.SCHEMA_DATA, f"HED{v}.xml")) for v in HIST_SCHEMAS)
+    both = [t for t in ma.tags if t.name.casefold() in mb.by_short and t.name.casefold() not in ma.dup_short
+            and t.name.casefold() not in mb.dup_short]
+    moved = [t for t in both if mb.by_short[t.name.casefold()].long != t.long]
+    same = [t for t in both if mb.by_short[t.name.casefold()].long == t.long]
+    subj = []
+    if moved:
+        subj.append((moved[0].name, ""))
+        mv = [t for t in moved if t.value_child is not None]
+        if mv:
+            subj.append((mv[0].name, "/#"))
+        deep = sorted(moved, key=lambda t: -len(t.terms()))[0]
+        subj.append((deep.name, "/Zzqext-1"))
+    val = [t for t in same if t.value_child is not None and len(t.terms()) >= 2]
+    subj.append((val[0].name, "/#"))
+    subj.append((val[-1].name, "/3 #"))
+    plain = [t for t in same if t.value_child is None and len(t.terms()) >= 3]
+    subj.append((plain[0].name, ""))
+    subj.append((plain[len(plain) // 2].name, "/Zzqext-1"))
+    return (ma, mb), subj
+
+
+def history_expect(model, name, ext):
+    node = model.by_short[name.casefold()]
+    return {"short_tag": node.name + ext, "long_tag": node.long + ext, "base_tag": node.long, "short_base_tag": node.name,
+            "extension": ext[1:], "node": node.long}
+
+
+def history_observe(tag):
+    return {"short_tag": tag.short_tag, "long_tag": tag.long_tag, "base_tag": tag.base_tag,
+            "short_base_tag": tag.short_base_tag, "extension": tag.extension,
+            "node": tag._schema_entry.long_tag_name if tag._schema_entry else None}
+
+
+def run_history(env, start_schema, spelling, name, suffix, ops):
+    """Replay one history on a fresh real object next to the reference (schema index, extension).  Returns a list of
+    (fingerprint suffix, detail) disagreements."""
+    from hed.models.hed_string import HedString
+    models, schemas, validators = env
+    node = models[start_schema].by_short[name.casefold()]
+    text = {"short": node.name, "long": node.long, "lower": node.name.lower()}[spelling] + suffix
+    hs = HedString(text, schemas[start_schema])
+    tag = hs.get_all_tags()[0]
+    cur, ext = start_schema, suffix
+    kept = []
+    out = []
+    for k, op in enumerate(ops):
+        if op == "long":
+            got, want = hs.get_as_long(), history_expect(models[cur], name, ext)["long_tag"]
+            if got != want:
+                out.append(("read-long", {"step": k, "got": got, "want": want}))
+        elif op == "short":
+            got, want = hs.get_as_short(), history_expect(models[cur], name, ext)["short_tag"]
+            if got != want:
+                out.append(("read-short", {"step": k, "got": got, "want": want}))
+        elif op.startswith("val:"):
+            cur = int(op[4:])
+            validators[cur].validate(hs, allow_placeholders=True)
+        elif op.startswith("ext:"):
+            tag.extension = op[4:]
+            ext = "/" + op[4:]
+        elif op.startswith("rp:"):
+            tag.replace_placeholder(op[3:])
+            ext = ext.replace("#", op[3:])
+        elif op == "copy":
+            kept.append((hs, tag, cur, ext))
+            hs = hs.copy()
+            tag = hs.get_all_tags()[0]
+    for who, (h, t, c, e) in [("final", (hs, tag, cur, ext))] + [("copied-from", x) for x in kept]:
+        want = history_expect(models[c], name, e)
+        got = history_observe(t)
+        bad = sorted(k for k in want if want[k] != got[k])
+        if bad:
+            out.append((who + ":" + "+".join(bad), {"got": got, "want": want}))
+            continue
+        if h.get_as_long() != want["long_tag"] or h.get_as_short() != want["short_tag"]:
+            out.append((who + ":string-forms", {"long": h.get_as_long(), "short": h.get_as_short(), "want": want}))
+        fresh = HedString(got["short_tag"], schemas[c]).get_all_tags()[0]
+        if fresh.long_tag != got["long_tag"] or HedString(got["long_tag"], schemas[c]).get_as_short() != got["short_tag"]:
+            out.append((who + ":long-of-short-differs", {"short": got["short_tag"], "long_of_short": fresh.long_tag,
+                                                         "long": got["long_tag"]}))
+    return out
+
+
+def history_env():
+    from hed.schema import load_schema_version
+    from hed.validator.hed_validator import HedValidator
+    models, subj = history_subjects()
+    schemas = tuple(load_schema_version(v) for v in HIST_SCHEMAS)
+    validators = tuple(HedValidator(s) for s in schemas)
+    return (models, schemas, validators), subj
+
+
+def worker_history(rec, shard, nshards, depth, seed):
+    import itertools
+    env, subj = history_env()
+    hists = [ops for d in range(1, depth + 1) for ops in itertools.product(HIST_OPS, repeat=d)]
+    starts = [(si, sp, name, suf) for name, suf in subj for si in (0, 1) for sp in ("short", "long", "lower")]
+    total = len(hists) * len(starts)
+    for idx in core.shard_order(total, shard, nshards, seed):
+        ops = hists[idx % len(hists)]
+        si, sp, name, suf = starts[idx // len(hists)]
+        rec.n("evaluations")
+        rec.n("transitions", len(ops))
+        if any(not o.startswith(("long", "short")) for o in ops):
+            rec.n("distinct_nontrivial")
+        rec.state(("history", name, suf, tuple(sorted(set(o.split(":")[0] for o in ops)))))
+        try:
+            bad = run_history(env, si, sp, name, suf, ops)
+        except Exception as e:
+            rec.violation("C03:history:raises:" + type(e).__name__, start=[HIST_SCHEMAS[si], sp, name, suf], ops=list(ops),
+                          error=repr(e)[:200])
+            continue
+        for what, detail in bad:
+            rec.violation("C03:history:" + what.split(":")[0] + ":" + what.split(":")[-1].split("+")[0],
+                          start=[HIST_SCHEMAS[si], sp, name, suf], ops=list(ops), what=what, **detail)
+        rec.outcome("history-" + ("differs" if bad else "ok"))
+        if idx % 30011 == 11:
+            rec.sample({"history": list(ops), "start": [HIST_SCHEMAS[si], sp, name + suf]})
+
+
 def run(ctx):
     cfgs = build_configs(ctx)
     ctx.rec.notes["bounds"] = {"configs": [c[0] for c in cfgs], "tags_per_config": {c[0]: len(c[2].tags) for c in cfgs},
                                "case_variants": 4, "suffixes": ["", EXT] + VALUES}
     ctx.parallel(worker, cfgs, ctx.seed)
     bulk_check(ctx, cfgs)
+    depth = ctx.pick(3, 5)
+    ctx.rec.notes["bounds"]["histories"] = {"schemas": HIST_SCHEMAS, "ops": HIST_OPS, "depth": depth,
+                                            "subjects": history_subjects()[1], "start_spellings": 3}
+    ctx.parallel(worker_history, depth, ctx.seed)
     ctx.rec.counts["states"] = len(ctx.rec.states)
 
 
